@@ -42,15 +42,8 @@ ASSUMPTIONS = [
 
 # ---- known findings ---------------------------------------------------------------------------
 def match_finding(f, case):
-    m = f.get('match', {})
-    if case.get('law') != m.get('law'):
-        return False
-    site, attr = case.get('site'), case.get('attr', {})
-    obs = case.get('obs', {})
-    for alt in m.get('any', []):
-        if alt['site'] == site and attr.get(alt['attr']) == alt['value'] and \
-                all(obs.get(k) == v for k, v in alt.get('obs', {}).items()):
-            return True
+    """no known finding is recorded for C04 (the two constructor-shape defects were repaired in
+    glom, commits 113d6db and 5d8773a): every disagreement is a VIOLATION"""
     return False
 
 
@@ -109,7 +102,6 @@ def replay_case(st, res):
     check_catalogue(leaf)
     want_evs = [W.proj_model(h['r']) for h in hist[:-1]]
     want_out = W.proj_out_model(x, arr)
-    want_fix = W.proj_out_model(st['xfix'], arr)
     make_exc = None if leaf['kind'] == 'glomdoc' else W.CATALOGUE[leaf['id']]
     arrcid = arr['cls']['id'] if arr['st'] == 'raised' else ''
     nh = n_hows(ctxs, leaf)
@@ -140,8 +132,6 @@ def replay_case(st, res):
                                        case=dict(base, law=st['lawv'], site=site, attr=attr, obs=got)))
             else:
                 res['agree'] += 1
-        elif got == want_fix:
-            res['repaired'] += 1
         else:
             res['pending'].append(dict(ctxs=ctxs, leaf=leaf, kw=kw, ev=evs, out=obs, how=how, want=want_out))
         # probes must be transparent: same outcome without them
@@ -154,7 +144,7 @@ def replay_case(st, res):
 
 
 def worker(states):
-    res = dict(n=0, cases=0, nontrivial=0, agree=0, repaired=0, excluded=0, bad=[], pending=[], samples=[],
+    res = dict(n=0, cases=0, nontrivial=0, agree=0, excluded=0, bad=[], pending=[], samples=[],
                actions={})
     for st in states:
         if st['ph'] == 'excluded':
@@ -384,14 +374,14 @@ def corrupted_row_rejected(check, rows):
     check.extra['corrupted_row_rejected'] = True
 
 
-MUTANTS = {'skip_after_wrap': 'InvDefaultSelective', 'default_none_absent': 'InvDefaultSelective',
+MUTANTS = {'copy_unguarded': 'InvClassKept', 'ctor_rerun': 'InvClassKept', 'skip_after_wrap': 'InvDefaultSelective', 'default_none_absent': 'InvDefaultSelective',
            'debug_copies': 'InvDebug', 'wrap_glom_only': 'InvClassKept', 'wrap_no_fallback': 'InvClassKept',
            'or_catches_all': 'PassThroughLaw'}
 
 
-def tlc_consts(fix, mutant, mind, maxd, rich, kwmode):
+def tlc_consts(mutant, mind, maxd, rich, kwmode):
     b = lambda v: 'TRUE' if v else 'FALSE'
-    return dict(Fix=b(fix), Mutant='"%s"' % mutant, MinDepth=mind, MaxDepth=maxd, Rich=b(rich), KwMode='"%s"' % kwmode)
+    return dict(Mutant='"%s"' % mutant, MinDepth=mind, MaxDepth=maxd, Rich=b(rich), KwMode='"%s"' % kwmode)
 
 
 def _t(label, t0=[None]):
@@ -412,27 +402,14 @@ def main(tier, seed):
         ok, out = vlib.sany(m)
         if not ok:
             raise vlib.MachineryError('sany failed on %s:\n%s' % (m, out[-2000:]))
-    # (1) the laws, checked by TLC on the mechanism with the candidate repairs (must hold), and on the
-    # faithful transcription: a violated law there is a design-level defect, which the replay below must
-    # then exhibit on the real library.  Runs in the background while the replay proceeds.
+    # (1)+(2) TLC checks every law on the transcribed mechanism (MC_C04.cfg) while exploring the
+    # behaviours; the same run is dumped and every behaviour replayed into the real library
     runs = {'quick': [(0, 0, True, 'full'), (1, 1, True, 'mid'), (2, 2, False, 'small')],
             'thorough': [(0, 1, True, 'full'), (2, 2, True, 'small'), (3, 3, False, 'small')]}[tier]
-    law_runs = runs if tier == 'thorough' else [(0, 1, True, 'full')]
-
-    def law_job():
-        out = []
-        for (mind, maxd, rich, kwmode) in law_runs:
-            c = tlc_consts(True, 'none', mind, maxd, rich, kwmode)
-            out.append((c, vlib.run_tlc('MC_C04', cfg='MC_C04_laws', constants=c, workers=4)))
-        return out, vlib.run_tlc('MC_C04', cfg='MC_C04_faithful', workers=2)
-    from concurrent.futures import ThreadPoolExecutor
-    bg = ThreadPoolExecutor(max_workers=1)
-    law_future = bg.submit(law_job)
-    # (2) spec -> code: replay every behaviour of the faithful machine
     acts, pending = {}, []
-    total = dict(cases=0, agree=0, repaired=0, excluded=0)
+    total = dict(cases=0, agree=0, excluded=0)
     for (mind, maxd, rich, kwmode) in runs:
-        c = tlc_consts(False, 'none', mind, maxd, rich, kwmode)
+        c = tlc_consts('none', mind, maxd, rich, kwmode)
         res, results = vlib.map_states('MC_C04', worker, constants=c)
         check.add_tlc(res, 'MC_C04 %s' % c)
         for r in results:
@@ -440,7 +417,7 @@ def main(tier, seed):
             check.cov['distinct_nontrivial'] += r['nontrivial']
             for k in total:
                 total[k] += r[k]
-            check.validated(r['agree'] + r['repaired'])
+            check.validated(r['agree'])
             for a, cnt in r['actions'].items():
                 acts[a] = acts.get(a, 0) + cnt
             for s in r['samples']:
@@ -457,16 +434,7 @@ def main(tier, seed):
     missing = [a for a in needed if not acts.get(a)]
     if missing or not total['excluded']:
         raise vlib.MachineryError('vacuity: actions never taken: %s (excluded=%d)' % (missing, total['excluded']))
-    fixed_runs, faithful = law_future.result()
-    bg.shutdown()
-    for c, r in fixed_runs:
-        vlib.tlc_must_pass(r, 'MC_C04_laws Fix=TRUE %s' % c)
-        check.add_tlc(r, 'all laws on the repaired mechanism %s' % c)
-    check.extra['laws_on_faithful_mechanism'] = faithful['violated'] or ('holds' if faithful['ok'] else 'error')
-    if not faithful['ok'] and not faithful['violated']:
-        vlib.tlc_must_pass(faithful, 'MC_C04_laws Fix=FALSE')
-    _t('laws')
-    if pending:   # outcome differs from both mechanism variants: let the laws decide (violation or drift)
+    if pending:   # outcome differs from the mechanism's prediction: let the laws decide (violation or drift)
         judge_rows(check, pending, 'replay-mismatch', stats)
     # (3) code -> spec
     rows = record(check, {'quick': 8000, 'thorough': 80000}[tier], seed, stats)
